@@ -125,8 +125,12 @@ var sqlKeywords = map[string]bool{"as": true, "by": true, "if": true, "in": true
 	"add": true, "all": true, "and": true, "asc": true, "end": true, "for": true, "key": true, "not": true, "row": true, "set": true, "do": true}
 
 func ident(r *simrt.RNG, used map[string]bool) string {
-	const first = "abcdefghijklmnopqrstuvwxyz"
-	const rest = "abcdefghijklmnopqrstuvwxyz0123456789_"
+	first := "abcdefghijklmnopqrstuvwxyz"
+	rest := "abcdefghijklmnopqrstuvwxyz0123456789_"
+	if r.Chance(0.25) { // mixed case now and then
+		first += "ABCDEFGHIJKLMNOPQRSTUVWXYZ"
+		rest += "ABCDEFGHIJKLMNOPQRSTUVWXYZ"
+	}
 	for {
 		n := 1 + r.Intn(10)
 		b := []byte{first[r.Intn(len(first))]}
@@ -137,10 +141,10 @@ func ident(r *simrt.RNG, used map[string]bool) string {
 		if len(s) < 4 {
 			s += "_c"
 		}
-		if sqlKeywords[s] || used[s] || strings.HasPrefix(s, "gpkg_") || strings.HasPrefix(s, "rtree_") || strings.HasPrefix(s, "sqlite_") {
+		if sqlKeywords[strings.ToLower(s)] || used[strings.ToLower(s)] || strings.HasPrefix(strings.ToLower(s), "gpkg_") || strings.HasPrefix(strings.ToLower(s), "rtree_") || strings.HasPrefix(strings.ToLower(s), "sqlite_") {
 			continue
 		}
-		used[s] = true
+		used[strings.ToLower(s)] = true // SQLite identifiers are case-insensitive
 		return s
 	}
 }
@@ -307,11 +311,20 @@ func genTable(r *simrt.RNG, used map[string]bool, srs gpkgh.SRS, t tms20.TileMat
 	}
 	cused := map[string]bool{}
 	tb.GeomCol = ident(r, cused)
-	pk := gpkgh.Column{Name: ident(r, cused), Type: "INTEGER", PK: true, NotNull: r.Chance(0.5)}
+	otherGeom := ""
+	if len(w.Source.Tables) > 0 && r.Chance(0.3) {
+		otherGeom = w.Source.Tables[r.Intn(len(w.Source.Tables))].GeomCol
+	}
+	pk := gpkgh.Column{Name: ident(r, cused), Type: "INTEGER", PK: true, NotNull: r.Chance(0.5), AutoInc: r.Chance(0.4)}
 	var attrs []gpkgh.Column
 	for i, n := 0, r.Intn(5); i < n; i++ {
-		typ := []string{"INTEGER", "REAL", "TEXT", "DOUBLE", "MEDIUMINT", "TEXT(20)", "Integer", "text", "Real", "BLOB"}[r.Intn(10)]
+		typ := []string{"INTEGER", "REAL", "TEXT", "DOUBLE", "MEDIUMINT", "TEXT(20)", "Integer", "text", "Real", "DOUBLE PRECISION", "VARCHAR(10)", "BLOB"}[r.Intn(12)]
 		attrs = append(attrs, gpkgh.Column{Name: ident(r, cused), Type: typ, NotNull: r.Chance(0.3)})
+	}
+	if otherGeom != "" && !cused[strings.ToLower(otherGeom)] && len(attrs) > 0 {
+		// an attribute column named like the geometry column of another table
+		attrs[r.Intn(len(attrs))].Name = otherGeom
+		cused[strings.ToLower(otherGeom)] = true
 	}
 	// the primary key is usually the first column, not always
 	cols := append([]gpkgh.Column{pk}, attrs...)
@@ -374,7 +387,7 @@ func genTable(r *simrt.RNG, used map[string]bool, srs gpkgh.SRS, t tms20.TileMat
 					b[k] = byte(r.Uint64())
 				}
 				row.Vals = append(row.Vals, gpkgh.BlobVal(string(b)))
-			case "REAL", "DOUBLE":
+			case "REAL", "DOUBLE", "DOUBLE PRECISION":
 				v := float64(int64(r.Uint64()%2000001)-1000000) / 128
 				if r.Chance(0.15) {
 					v = float64(int64(r.Uint64()%2001) - 1000) // a whole number stays REAL
@@ -428,6 +441,9 @@ func genWork(seed uint64) (twork, simrt.FaultPlan, simrt.MapPolicy, uint64) {
 	w.PageSize = 1 + r.Intn(50)
 	if r.Chance(0.3) {
 		w.PageSize = 1 + r.Intn(4)
+	}
+	if r.Chance(0.08) {
+		w.PageSize = 1000
 	}
 	w.Keep, w.IgnoreOut, w.Reverse = r.Chance(0.5), r.Chance(0.5), r.Chance(0.4)
 	w.Spelling = r.Uint64()
@@ -554,7 +570,9 @@ func buildArgs(w *twork, src, target string) []string {
 		idStr = strings.ReplaceAll(idStr, ",", ", ")
 	}
 	val([]string{"--tilematrices", "-z"}, idStr)
-	val([]string{"--pagesize", "-p"}, strconv.Itoa(w.PageSize))
+	if w.PageSize != 1000 || r.Chance(0.5) {
+		val([]string{"--pagesize", "-p"}, strconv.Itoa(w.PageSize))
+	}
 	boolean([]string{"--overwrite", "-o"}, w.Overwrite)
 	boolean([]string{"--keeppointsandlines", "--pl", "-pl"}, w.Keep)
 	boolean([]string{"--ignoreoutsidegrid", "--iog", "-iog"}, w.IgnoreOut)
